@@ -627,3 +627,69 @@ def r9_signed_projective_division(ck, P):
                 ck.violation(R, f.name, 'unsigned division by w', '%s divides a source coordinate by w with an unsigned division: for a negative coordinate (outside the image, reached through any repeat mode) or a negative w and a w that is not a power of two the sampled position is garbage' % f.name, x.loc())
     if n == 0:
         ck.incomplete(R, 'no division by the homogeneous coordinate found in the fetchers')
+
+
+TRANSFORM_FLAG_REQUIRES = {
+    # flag: matrix tests (row, column, predicate, constant) that must all hold where the flag is set
+    'FAST_PATH_AFFINE_TRANSFORM': {(2, 0, 'eq', 0), (2, 1, 'eq', 0), (2, 2, 'eq', 65536)},
+    'FAST_PATH_SCALE_TRANSFORM': {(2, 0, 'eq', 0), (2, 1, 'eq', 0), (2, 2, 'eq', 65536), (0, 1, 'eq', 0), (1, 0, 'eq', 0)},
+    'FAST_PATH_ROTATE_180_TRANSFORM': {(2, 0, 'eq', 0), (2, 1, 'eq', 0), (2, 2, 'eq', 65536), (0, 1, 'eq', 0), (1, 0, 'eq', 0), (0, 0, 'eq', -65536), (1, 1, 'eq', -65536)},
+    'FAST_PATH_ROTATE_90_TRANSFORM': {(2, 0, 'eq', 0), (2, 1, 'eq', 0), (2, 2, 'eq', 65536), (0, 0, 'eq', 0), (1, 1, 'eq', 0), (0, 1, 'eq', -65536), (1, 0, 'eq', 65536)},
+    'FAST_PATH_ROTATE_270_TRANSFORM': {(2, 0, 'eq', 0), (2, 1, 'eq', 0), (2, 2, 'eq', 65536), (0, 0, 'eq', 0), (1, 1, 'eq', 0), (0, 1, 'eq', 65536), (1, 0, 'eq', -65536)},
+    'FAST_PATH_Y_UNIT_ZERO': {(1, 0, 'eq', 0)},
+    'FAST_PATH_X_UNIT_POSITIVE': {(0, 0, 'sgt', 0)},
+}
+
+
+def r10_transform_flags(ck, P):
+    """the transform classification the fast paths and affine fetchers rely on (they never divide by w, never look at the off-diagonal ...)"""
+    R = ck.rule('C08-R10', 'each transform classification flag is set only under the matrix tests its consumers assume: AFFINE needs the bottom row (0, 0, 1.0) exactly - the affine fetchers and scaled fast paths never divide by w - SCALE additionally a zero off-diagonal, the ROTATE flags their exact +-1.0 entries, Y_UNIT_ZERO m[1][0] == 0, X_UNIT_POSITIVE m[0][0] > 0', floor=7)
+    C = __import__('pxv.consts', fromlist=['x']).fast_path_flags()
+    f = None
+    for g in P.functions():
+        if g.name == 'compute_image_info':
+            f = g
+    if f is None:
+        ck.incomplete(R, 'compute_image_info not found'); return
+    ck.saw(f)
+    bit = {C[k]: k for k in TRANSFORM_FLAG_REQUIRES if k in C}
+    seen = set()
+    for x in f.insts():
+        if x.op != 'or':
+            continue
+        cs = [int(o[1]) & 0xffffffff for o in x.a if o[0] == 'c']
+        if not cs:
+            continue
+        for b_, name in bit.items():
+            if not (cs[0] & b_):
+                continue
+            have = set()
+            for t, s_ in f.guard_edges(x.bb.id):
+                if t.op != 'br' or not t.a:
+                    continue
+                c, pred, ops = f.cond(t.a[0])
+                if c is None or c.op != 'icmp':
+                    continue
+                taken = t.d['succ'][0] == s_
+                if not taken:
+                    pred = f.INV.get(pred, pred)
+                for i in (0, 1):
+                    y = f.v(f.strip_casts(ops[i])) if ops[i][0] == 'v' else None
+                    k = ops[1 - i]
+                    if y is None or y.op != 'load' or k[0] != 'c':
+                        continue
+                    q = list(f.path(y.a[0])[1])
+                    if len(q) >= 3 and q[-3] == 'pixman_transform.matrix':
+                        pr = pred if i == 0 else {'sgt': 'slt', 'slt': 'sgt', 'sge': 'sle', 'sle': 'sge'}.get(pred, pred)
+                        have.add((int(q[-2].strip('[]')), int(q[-1].strip('[]')), pr, int(k[1])))
+            # local copies (m01 = matrix[0][1]) compared later: the loaded value may be tested in another block through the same SSA value
+            need = TRANSFORM_FLAG_REQUIRES[name]
+            missing = need - have
+            seen.add(name)
+            if missing:
+                ck.violation(R, f.name, 'guards of ' + name, 'compute_image_info sets %s without testing %s: consumers of the flag (affine fetchers, scaled and rotated fast paths, the bilinear-to-nearest reduction) assume it and sample the wrong position for the matrices now let through' % (name, ', '.join('matrix[%d][%d] %s %d' % m for m in sorted(missing))), x.loc())
+            else:
+                ck.ok(R, '%s set under %d matrix tests' % (name, len(need)))
+    for name in TRANSFORM_FLAG_REQUIRES:
+        if name in C and name not in seen:
+            ck.incomplete(R, 'no site setting %s found in compute_image_info' % name)
